@@ -102,8 +102,15 @@ func (g *gram) invoke(fn *ssa.Function, args []gval, bind []gval, entry *gconf, 
 				delete(c.env, v)
 			}
 		}
-		for k := range c.facts {
+		for k, f := range c.facts {
 			if !fr.fi.liveKey(k, to) {
+				// the length class of a slice parameter is kept to the end: it is reported back to the caller
+				if f.lenMask != 0 && f.lenMask != 7 {
+					if _, isParam := fr.fi.byName[k].(*ssa.Parameter); isParam {
+						c.facts[k] = gfact{lenMask: f.lenMask, empty: f.empty}
+						continue
+					}
+				}
 				delete(c.facts, k)
 			}
 		}
@@ -182,10 +189,19 @@ func (g *gram) invoke(fn *ssa.Function, args []gval, bind []gval, entry *gconf, 
 							r.Tup = append(r.Tup, g.val(c, res))
 						}
 					}
-					k := r.String() + "||" + heapKey(c.heap)
+					var pf map[int]gfact
+					for i, p := range fn.Params {
+						if f, ok := c.facts[g.pathKey(p)]; ok && f.lenMask != 0 && f.lenMask != 7 {
+							if pf == nil {
+								pf = map[int]gfact{}
+							}
+							pf[i] = gfact{lenMask: f.lenMask, empty: f.empty}
+						}
+					}
+					k := r.String() + "||" + heapKey(c.heap) + "||" + pfactsKey(pf)
 					if !outSeen[k] {
 						outSeen[k] = true
-						outs = append(outs, gout{ret: r, heap: c.heap, tr: c.trace})
+						outs = append(outs, gout{ret: r, heap: c.heap, tr: c.trace, pfacts: pf})
 					}
 				}
 				cs = nil
@@ -1070,12 +1086,12 @@ func (g *gram) callFn(fr *gframe, c *gconf, site *ssa.Call, callee *ssa.Function
 					h[cell] = v
 				}
 			}
-			k := o.ret.String() + "||" + heapKey(h)
+			k := o.ret.String() + "||" + heapKey(h) + "||" + pfactsKey(o.pfacts)
 			if seen[k] {
 				continue
 			}
 			seen[k] = true
-			outs = append(outs, gout{ret: o.ret, heap: h, tr: o.tr})
+			outs = append(outs, gout{ret: o.ret, heap: h, tr: o.tr, pfacts: o.pfacts})
 		}
 		g.memo[key] = outs
 	}
@@ -1090,6 +1106,11 @@ func (g *gram) callFn(fr *gframe, c *gconf, site *ssa.Call, callee *ssa.Function
 		}
 		for _, t := range o.tr {
 			n.note(t)
+		}
+		for i, f := range o.pfacts {
+			if i < len(args) && args[i].Key != "" {
+				n.facts[args[i].Key] = mergeFact(n.facts[args[i].Key], f)
+			}
 		}
 		r := o.ret
 		if r.K == gTuple && len(r.Tup) == 0 {
